@@ -60,7 +60,7 @@ func zzScenario(state string) (*fakeapi.Client, *v1alpha1.ExtendedDaemonSet) {
 	ds.Status.ActiveReplicaSet = "foo-a"
 	ds.Status.State = v1alpha1.ExtendedDaemonSetStatusStateRunning
 	ds.Status.Desired = 2
-	if state == "canary" || state == "auto-paused" || state == "user-paused" || state == "failed" {
+	if state == "canary" || state == "auto-paused" || state == "user-paused" || state == "failed" || state == "resumed" {
 		ds.Spec.Template = zzTpl("B")
 		rsB := zzRSFor(ds, "B", "foo-b")
 		ds.Status.Canary = &v1alpha1.ExtendedDaemonSetStatusCanary{ReplicaSet: "foo-b", Nodes: []string{"node0"}}
@@ -74,6 +74,12 @@ func zzScenario(state string) (*fakeapi.Client, *v1alpha1.ExtendedDaemonSet) {
 			ds.Annotations[v1alpha1.ExtendedDaemonSetCanaryPausedAnnotationKey] = "true"
 			ds.Annotations[v1alpha1.ExtendedDaemonSetCanaryUnpausedAnnotationKey] = "false"
 			ds.Status.State = v1alpha1.ExtendedDaemonSetStatusStateCanaryPaused
+		case "resumed":
+			// paused and unpaused earlier: the replica set keeps a Canary-Paused=False condition and the
+			// annotations written by the unpause command
+			rsB.Status.Conditions = append(rsB.Status.Conditions, v1alpha1.ExtendedDaemonSetReplicaSetCondition{Type: v1alpha1.ConditionTypeCanaryPaused, Status: corev1.ConditionFalse, LastTransitionTime: at, LastUpdateTime: at})
+			ds.Annotations[v1alpha1.ExtendedDaemonSetCanaryPausedAnnotationKey] = "false"
+			ds.Annotations[v1alpha1.ExtendedDaemonSetCanaryUnpausedAnnotationKey] = "true"
 		case "failed":
 			// failed by the replica-set controller; the ExtendedDaemonSet has not reacted yet
 			rsB.Status.Conditions = append(rsB.Status.Conditions, v1alpha1.ExtendedDaemonSetReplicaSetCondition{Type: v1alpha1.ConditionTypeCanaryFailed, Status: corev1.ConditionTrue, LastTransitionTime: at, LastUpdateTime: at})
@@ -92,7 +98,7 @@ func zzScenario(state string) (*fakeapi.Client, *v1alpha1.ExtendedDaemonSet) {
 }
 
 func zzPickState() string {
-	switch nondet.String("state", "no-strategy", "idle", "canary", "auto-paused", "user-paused", "failed") {
+	switch nondet.String("state", "no-strategy", "idle", "canary", "auto-paused", "user-paused", "failed", "resumed") {
 	case "no-strategy":
 		return "no-strategy"
 	case "idle":
@@ -103,6 +109,8 @@ func zzPickState() string {
 		return "auto-paused"
 	case "user-paused":
 		return "user-paused"
+	case "resumed":
+		return "resumed"
 	}
 	return "failed"
 }
